@@ -2,7 +2,7 @@
 import specs
 from specs import graph_property
 
-RESET = dict(name="Reset", m="none", chain="none", kind="none", naming="none", o="none", s="none", n=0, x="none", res="ok")
+RESET = dict(name="Reset", m="none", chain="none", kind="none", naming="none", o="none", s="none", n=0, x=[], res="ok")
 FORMULAS = dict(
     invariants=[],
     properties=["C10_OnlyDirectCaller", "C10_AllowanceBound", "C10_WriteNeedsCall", "C10_DisabledNeverRuns", "C10_RefusedIsNoop"],
@@ -14,24 +14,32 @@ ALL = STAKING + CROSS + ["delegation"]
 
 
 def consts(methods, switches, amts, maxapp):
-    return dict(Method=methods, SwitchVal=switches, ApproveAmt=amts, MaxCall=1, MaxApprove=maxapp)
+    # switches: name of the operator in CallerMC.tla that defines the set of switch settings (sequences of entries)
+    return dict(consts=dict(Method=methods, ApproveAmt=amts, MaxCall=1, MaxApprove=maxapp), overrides=dict(SwitchVal=switches))
+
+
+def mc(name, tiers, c, **kw):
+    return dict(name=name, tiers=tiers, consts=c["consts"], overrides=c["overrides"], **kw)
 
 
 def cfg(name, tiers, c, shards=14, **kw):
-    return dict(name=name, tiers=tiers, consts=c, harness=[dict(chain="x", Method=c["Method"], SwitchVal=c["SwitchVal"])], shards=shards, rej_sample=0, explore=0, **kw)
+    return dict(name=name, tiers=tiers, consts=c["consts"], overrides=c["overrides"], harness=[dict(chain="x", Method=c["consts"]["Method"])],
+                shards=shards, rej_sample=0, explore=0, **kw)
 
 
-DEV = consts(["transferFromShares", "crossChain", "delegation"], ["off", "staking", "crossChain"], [2], 1)
-# quick: every method, every chain x call kind x naming; switch: off / either address / one method of each precompile
-# (for the other methods these two settings are "another method disabled"); allowances: none or one grant of 1, 2, 3
-QUICK = consts(ALL, ["off", "staking", "crosschain", "transferFromShares", "crossChain"], [1, 2, 3], 1)
+DEV = consts(["transferFromShares", "crossChain", "delegation"], "SwitchDev", [2], 1)
+# quick: every method, every chain x call kind x naming; switch (CallerMC!SwitchQuick): off / either address / one
+# method of each precompile (for the other methods: "another method disabled") / lists of two and four entries
+# with the blocking entry after, before, and between entries of the same and of the other precompile;
+# allowances: none or one grant of 1, 2, 3 (combined with the single-entry settings)
+QUICK = consts(ALL, "SwitchQuick", [1, 2, 3], 1)
 # thorough: every method also as switch setting (one grant); and, for the share methods, two successive grants
 # (overwrites, grants to two spenders, grants by two owners)
-THOROUGH = consts(ALL, ["off", "staking", "crosschain"] + ALL, [1, 2, 3], 1)
-GRANTS2 = consts(["transferFromShares", "transferShares", "approveShares", "delegation"], ["off"], [1, 3], 2)
+THOROUGH = consts(ALL, "SwitchThorough", [1, 2, 3], 1)
+GRANTS2 = consts(["transferFromShares", "transferShares", "approveShares", "delegation"], "SwitchOff", [1, 3], 2)
 
-MC = [dict(name="dev", tiers=["dev"], consts=DEV), dict(name="quick", tiers=["quick"], consts=QUICK),
-      dict(name="thorough", tiers=["thorough"], consts=THOROUGH, timeout=2400), dict(name="grants2", tiers=["thorough"], consts=GRANTS2, timeout=2400)]
+MC = [mc("dev", ["dev"], DEV), mc("quick", ["quick"], QUICK), mc("thorough", ["thorough"], THOROUGH, timeout=2400),
+      mc("grants2", ["thorough"], GRANTS2, timeout=2400)]
 GEN = [cfg("dev", ["dev"], DEV, shards=4), cfg("quick", ["quick"], QUICK), cfg("thorough", ["thorough"], THOROUGH, shards=16, timeout=2400),
        cfg("grants2", ["thorough"], GRANTS2, shards=16, timeout=2400)]
 
